@@ -152,6 +152,9 @@ fn convert_pattern(
 ) -> Option<ServerOrColor> {
     let node_with_children = find_pattern_with_children(node)?;
 
+    // Break reference cycles.
+    let state = &state.enter_def(node_with_children)?;
+
     let id = NonEmptyString::new(node.element_id().to_string())?;
 
     let view_box = {
